@@ -1,11 +1,12 @@
 from __future__ import annotations
 
+from itertools import combinations
 from typing import TYPE_CHECKING, cast
 
 import numpy as np
 import numpy.typing as npt
 
-from geometer.base import EQ_TOL_ABS, EQ_TOL_REL, LeviCivitaTensor, TensorDiagram
+from geometer.base import EQ_TOL_ABS, EQ_TOL_REL
 from geometer.curve import absolute_conic
 from geometer.exceptions import NotCollinear, NotConcurrent
 from geometer.point import (
@@ -447,13 +448,10 @@ def is_coplanar(*args: PointTensor | LineTensor, tol: float = EQ_TOL_ABS) -> npt
     result = np.isclose(det(np.stack([a.array for a in args[:n]], axis=-2)), 0, atol=tol)
     if not np.any(result) or len(args) == n:
         return result
-    covariant = args[0].tensor_shape[1] > 0
-    e = LeviCivitaTensor(n, covariant=covariant)
-    diagram = TensorDiagram(*[(e, a) if covariant else (a, e) for a in args[: n - 1]])
-    tensor = diagram.calculate()
-    for t in args[n:]:
-        x = t * tensor if covariant else tensor * t
-        result &= np.isclose(x.array, 0, atol=tol)
+    # the objects lie in a common hyperplane (resp. pass through a common point) if and only if every n of them do;
+    # testing the remaining objects against the span of the first n - 1 fails when those are linearly dependent
+    for ind in combinations(range(len(args)), n):
+        result &= np.isclose(det(np.stack([args[i].array for i in ind], axis=-2)), 0, atol=tol)
         if not np.any(result):
             break
     return result
